@@ -61,6 +61,7 @@ Step(e) ==
             LET obs == ApplyDiff(t, e.ch) IN
             /\ Drift("time-changes-nothing-but-status", l, StripT(obs) = StripT(t))
             /\ Drift("status-function", l, \A p \in AllSlots(obs) : SlotC(obs, p).st = RT!Status(SlotC(obs, p), e.t))
+            /\ Chk("C10", "not-dropped-by-time-alone", l, NoSpuriousDrop(hist, t, obs, e.t))
             /\ Common(e, obs, hist)
       [] e.ev \in {"Good", "Quest"} ->
             LET obs == ApplyDiff(t, e.ch)
@@ -75,11 +76,13 @@ Step(e) ==
       [] e.ev = "Local" ->
             LET obs == ApplyDiff(t, e.ch)  pred == RT!TMarkLocal(StripT(t), H(e), e.t) IN
             /\ Drift("mark-local", l, StripT(obs) = pred)
+            /\ Chk("C10", "dropped-only-after-two-unanswered-queries", l, NoSpuriousDrop(HQuerySent(hist, H(e), t, e.t), t, obs, e.t))
             /\ Common(e, obs, HQuerySent(hist, H(e), t, e.t))
       [] e.ev = "Remote" ->
             LET obs == ApplyDiff(t, e.ch)  pred == RT!TMarkRemote(StripT(t), H(e), e.t) IN
             /\ Drift("mark-remote", l, StripT(obs) = pred)
             /\ Chk("C12", "query-never-admits", l, RLiveHandles(obs, e.t) \subseteq RLiveHandles(t, e.t))
+            /\ Chk("C10", "not-dropped-by-a-query-from-it", l, NoSpuriousDrop(hist, t, obs, e.t))
             /\ Common(e, obs, HQueryFrom(hist, H(e), t, e.t))
       [] e.ev = "Closest" ->
             LET hs == HandlesOf(e.out)
